@@ -94,7 +94,11 @@ def gen_phase(rng):
             loops = [[rng.choice(["i", "k"]), rng.choice([0, 1, "lo"]), rng.choice([3, "n", "n+1"])]]
         elif kind == "loop2":
             loops = [["i", 0, rng.choice([2, "n"])], ["j", rng.choice([0, "i"]), rng.choice([3, "m"])]]
-        stmts.append({"id": x, "kind": kind, "deps": deps, "guard": gen_guard(rng, flags), "loops": loops})
+        # which loop variables the looped statement mentions: all / only in the subscript / none at all
+        # (scalar assignee, constant right-hand side) / all but the outermost
+        uses = rng.choice(["all", "all", "subscript", "none", "inner-only"])
+        stmts.append({"id": x, "kind": kind, "deps": deps, "guard": gen_guard(rng, flags), "loops": loops,
+                      "uses": uses})
     rng.shuffle(stmts)
     return {"stmts": stmts}
 
@@ -133,6 +137,13 @@ def build_stmt(d):
     if k in ("assign", "loop1", "loop2"):
         loops = [(c, parse(str(lo)), parse(str(hi))) for c, lo, hi in d["loops"]]
         if loops:
+            uses = d.get("uses", "all")
+            if uses == "none":
+                return Assign("v_" + d["id"], (), var("<state>y") + 1, loops=loops, **kw)
+            if uses == "subscript":
+                return Assign("arr_" + d["id"], (var(loops[-1][0]),), var("<state>y") + 1, loops=loops, **kw)
+            if uses == "inner-only":
+                return Assign("arr_" + d["id"], (var(loops[-1][0]),), var(loops[-1][0]) + 1, loops=loops, **kw)
             return Assign("arr_" + d["id"], (var(loops[-1][0]),), var(loops[0][0]) + 1, loops=loops, **kw)
         return Assign("v_" + d["id"], (), var("<state>y") + 1, **kw)
     if k == "call":
